@@ -1839,6 +1839,11 @@ impl KyroDbService for KyroDBServiceImpl {
 
         let engine = &self.state.engine;
 
+        // Serialize with this tenant's quota check + insert: a delete that lands between an
+        // upsert's exists-check and its write would release a slot the upsert then re-fills.
+        let quota_lock = self.tenant_quota_lock(tenant.as_ref());
+        let _quota_guard = quota_lock.as_ref().map(|lock| lock.lock());
+
         let metadata = match engine.get_metadata(global_doc_id) {
             Some(m) => m,
             None => {
@@ -2459,6 +2464,10 @@ impl KyroDbService for KyroDBServiceImpl {
         let req = request.into_inner();
 
         let engine = &self.state.engine;
+
+        // Same serialization as `delete`: the count is lowered by what this call removed.
+        let quota_lock = self.tenant_quota_lock(tenant.as_ref());
+        let _quota_guard = quota_lock.as_ref().map(|lock| lock.lock());
 
         let result = match req.delete_criteria {
             Some(batch_delete_request::DeleteCriteria::Ids(id_list)) => {
